@@ -86,6 +86,8 @@ def run(tier, seed, only=None):
         j.setdefault("seed", "null" if (not j["structured"] and k % 3 == 0) else "given")
         # every 5th run: the configuration classes with only the required entries, everything else at its schema default
         j.setdefault("bare", k % 5 == 2)
+        # every 6th run is given the final configuration of an earlier run, on labels whose skeleton has another name
+        j.setdefault("reuse", k % 6 == 3 and not j.get("bare") and not j.get("media"))
         # output directory: given, or left unset (documented: the current working directory) - every 4th run
         j.setdefault("cwd_out", k % 4 == 1)
     obs = run_jobs(jobs, shim.REPO, seed, workers=14, timeout=900)
@@ -111,6 +113,7 @@ def run(tier, seed, only=None):
     res.clause("runs_with_early_stopping_section_null", sum(1 for o in obs if o["job"].get("es") == "null"))
     res.clause("runs_with_seed_null", sum(1 for o in obs if o["job"].get("seed") == "null"))
     res.clause("runs_with_schema_defaults_only", sum(1 for o in obs if o["job"].get("bare")))
+    res.clause("runs_reusing_an_earlier_final_configuration", sum(1 for o in obs if o["job"].get("reuse")))
     res.clause("runs_np_chunks", sum(1 for o in obs if o["job"]["fw"] != "torch_dataset"))
     res.coverage.update(evaluations=len(traces), distinct_nontrivial=len({str(sorted(o["job"].items())) for o in obs if len(o["states"]) >= 4}),
                         exhaustive=(tier == "thorough" and only is None),
